@@ -114,20 +114,29 @@ def _check_large(case: dict) -> Result:
     n, seed = case["n"], case["seed"]
     rng = random.Random(seed)
     size = 1 << n
-    v = np.array([float(rng.randint(-50, 50)) for _ in range(size)])
-    v[0] = 0.0
-    g = repo.full_game(n, v)
     ids = np.arange(size)
     pop = np.zeros(size, dtype=np.int64)
     for b in range(n):
         pop += (ids >> b) & 1
+    noise = np.array([float(rng.randint(-50, 50)) for _ in range(size)])
+    # two shapes: zero-mean noise (marginals of both signs: errors in the weights average out, errors in ids do not) and an
+    # increasing game 10|S| + noise/16 (marginals all positive: a relative error in a weight shows in full)
+    shapes = {"noise": noise.copy(), "increasing": 10.0 * pop + np.round(noise / 16.0)}
     w = np.array([math.factorial(k) * math.factorial(n - k - 1) / math.factorial(n) for k in range(n)])
-    for i in case["players"]:
+    for idx, i in enumerate(case["players"]):
+        shape = ("increasing", "noise")[idx % 2]
+        v = shapes[shape]
+        v[0] = 0.0
+        g = repo.full_game(n, v)
         without = ids[(ids >> i) & 1 == 0]
-        want = float(np.sum(w[pop[without]] * (v[without | (1 << i)] - v[without])))
+        marg = v[without | (1 << i)] - v[without]
+        want = float(np.sum(w[pop[without]] * marg))
         got = float(compute_shapley_value_for_player(i, g))
-        if abs(got - want) > 1e-9 * 50 * n:
-            res.fail(f"!=closed-form :: n={n} player {i}: got {got!r}, closed form {want!r}")
+        # both sides sum 2^(n-1) terms w_k * marginal with sum of w = 1: each is within (2^(n-1)) * eps * max|marginal| of the exact
+        # value (first-order bound for any summation order, exact integer coefficients below 2^53); the tolerance is twice the sum
+        tol = 2.0 * size * EPS * float(np.max(np.abs(marg))) + 8 * EPS * abs(want)
+        if abs(got - want) > tol:
+            res.fail(f"!=closed-form :: n={n} player {i} ({shape} game): got {got!r}, closed form {want!r}, difference {got - want:.3g} (tolerance {tol:.2g})")
     res.nontrivial = True
     res.label(f"large n={n}")
     return res
